@@ -6,6 +6,7 @@ import (
 	"net"
 	"strconv"
 	"strings"
+	"sync"
 	"testing/synctest"
 	"time"
 
@@ -44,6 +45,7 @@ type redisWorld struct {
 	// the cursor is not 0)
 	scanPage  int
 	scanEmpty int
+	pmu       sync.Mutex          // guards scans and capture (touched by the pumps of a connection)
 	scans     map[int][][]string  // connection -> pages still to hand out (index = cursor)
 	capture   map[int]chan []byte // connection -> where the next complete server reply goes
 }
@@ -253,11 +255,16 @@ func (rw *redisWorld) pumpS2C(id int, from, to net.Conn) {
 			to.Close()
 			return
 		}
-		if ch := rw.capture[id]; ch != nil {
+		rw.pmu.Lock()
+		ch := rw.capture[id]
+		rw.pmu.Unlock()
+		if ch != nil {
 			// the pump itself asked (SCAN paging): the reply goes to it, not to the client
 			held = append(held, chunk...)
 			if n, ok := respLen(held, 0); ok {
+				rw.pmu.Lock()
 				delete(rw.capture, id)
+				rw.pmu.Unlock()
 				ch <- held[:n]
 				held = nil
 			}
@@ -323,11 +330,15 @@ func (rw *redisWorld) scan(id int, cmd []byte, server net.Conn) ([]byte, bool) {
 	}
 	if cur == 0 {
 		ch := make(chan []byte, 1)
+		rw.pmu.Lock()
 		rw.capture[id] = ch
+		rw.pmu.Unlock()
 		rw.syncClock()
 		rw.cmds++
 		if _, err := server.Write(cmd); err != nil {
+			rw.pmu.Lock()
 			delete(rw.capture, id)
+			rw.pmu.Unlock()
 			return nil, false
 		}
 		full := <-ch
@@ -348,10 +359,14 @@ func (rw *redisWorld) scan(id int, cmd []byte, server net.Conn) ([]byte, bool) {
 			pages = append(pages, keys[:n])
 			keys = keys[n:]
 		}
+		rw.pmu.Lock()
 		rw.scans[id] = pages
+		rw.pmu.Unlock()
 		rw.e.Probe("scan_answered_in_pages")
 	}
+	rw.pmu.Lock()
 	pages := rw.scans[id]
+	rw.pmu.Unlock()
 	if cur < 0 || cur >= len(pages) {
 		return []byte("*2\r\n$1\r\n0\r\n*0\r\n"), true
 	}
